@@ -399,3 +399,76 @@ func TestVerifC04ClientFastOpen(t *testing.T) {
 		}
 	}
 }
+
+// TestVerifC04ClientAddrLen: the real Client.TCP (plain and fast open) is asked for target addresses of
+// every length at the varint boundaries and at the protocol's limit (1..2048 bytes are all valid);
+// the server's outbound must be asked for exactly that address and a payload written behind the
+// request must come back unshifted. (Round-6 seed C04-r6-1: a client-side pre-check refusing 2048.)
+func TestVerifC04ClientAddrLen(t *testing.T) {
+	k := vfNewKit(t, "C04", "client-addrlen-e2e")
+	defer k.Finish()
+	defer debug.SetGCPercent(debug.SetGCPercent(-1))
+	lens := []int{1, 2, 62, 63, 64, 65, 255, 2046, 2047, 2048}
+	for _, fo := range []bool{false, true} {
+		for _, al := range lens {
+			caseID := fmt.Sprintf("cliaddr-%v-%d", fo, al)
+			if rc := k.ReplayCase(); rc != "" && rc != caseID {
+				continue
+			}
+			runtime.GC()
+			k.Eval()
+			synctest.Test(t, func(t *testing.T) {
+				w, err := vfNewWorld(vfServerOpts{})
+				if err != nil {
+					t.Fatalf("harness: server: %v", err)
+				}
+				asked := make(chan string, 4)
+				w.Out.OnTCP = func(addr string) (net.Conn, error) {
+					asked <- addr
+					pt := vfNewPipeTarget()
+					go func() { _, _ = io.Copy(pt.Harness, pt.Harness) }()
+					w.onClose(func() { _ = pt.Harness.Close() })
+					return pt.serverSide, nil
+				}
+				hc, _, _, err := w.HyClient("ok:c04addr", func(cc *client.Config) { cc.FastOpen = fo })
+				if err != nil {
+					t.Fatalf("harness: client: %v", err)
+				}
+				addr := string(vfC04Payload(al, al))
+				b := []byte(addr)
+				for i := range b {
+					b[i] = "abcdefghijklmnopqrstuvwxyz0123456789.-:"[int(b[i])%39]
+				}
+				addr = string(b)
+				rep := map[string]any{"case_id": caseID, "addr_len": al, "fast_open": fo}
+				k.Count("ev_client_addrlen_requests", 1)
+				conn, err := hc.TCP(addr)
+				if err != nil {
+					k.Violation("client:valid-address-refused", rep, "Client.TCP(address of %d bytes, fast open %v) failed although 1..2048 bytes are valid and the outbound accepts it: %v", al, fo, err)
+					w.Close()
+					return
+				}
+				payload := vfC04Payload(al+7, 1500)
+				_, _ = conn.Write(payload)
+				_ = conn.SetReadDeadline(time.Now().Add(5 * time.Second))
+				got := make([]byte, len(payload))
+				_, rerr := io.ReadFull(conn, got)
+				var seen string
+				select {
+				case seen = <-asked:
+				default:
+				}
+				if seen != addr {
+					k.Violation("client:address-not-identical", rep, "Client.TCP(address of %d bytes): the server's outbound was asked for %d bytes %q...", al, len(seen), seen[:min(24, len(seen))])
+				} else if rerr != nil || !bytes.Equal(got, payload) {
+					k.Violation("client:payload-shifted-behind-request", rep, "address of %d bytes: echoed payload differs (err %v): got %x..., sent %x...", al, rerr, got[:16], payload[:16])
+				} else {
+					k.Count("ev_client_addrlen_ok", 1)
+					k.Nontrivial(fmt.Sprintf("cliaddr/%v/%d", fo, al))
+				}
+				_ = conn.Close()
+				w.Close()
+			})
+		}
+	}
+}
